@@ -27,7 +27,7 @@ ASSUMPTIONS = [
     'ulist elements are hashable scalars (ints and strings); only the constructor, copy and the operators + | - & are '
     'covered (in-place list methods such as append / extend / += are outside the statement)',
     'a right operand is a list (or ulist) or a single non-list element; tuples count as single elements and are not enumerated',
-    'mapping keys are plain strings that neither contain a dot, start with an underscore nor shadow a dict / dictattr attribute '
+    'mapping keys are plain strings that neither contain a dot nor shadow a dict / dictattr attribute; keys with a leading underscore take part in attribute READ access only '
     '(keys, items, copy ...); values are ints or lists, never dicts (Dict + other is a tree merge on nested dicts: that is C15)',
     "d - ('a', 'b') with a tuple is nested-path deletion and is excluded; d | other is not named by the statement and is not checked",
     'the right operand of d + other is a flat dict, dictattr, Dict or an instance of the user subclass of Dict',
@@ -323,6 +323,26 @@ def check_mapping(case):
             out.viol('attr-raised', '%s.%s raised %s: %s' % (shown, k, type(e).__name__, e), op='getattr', cls=cname, present=k in vals)
         intact(d, '%s.%s' % (shown, k), 'getattr')
         out.cls('attr-present' if k in vals else 'attr-absent')
+    # ---- keys with a leading underscore are ordinary keys when READ as attributes (only setting / deleting _names is special-cased)
+    und = {'_u': ['u'], '__w': ['w']}
+    for k in ('_u', '__w', '_absent'):
+        out.sub()
+        d = cls(dict(list(vals.items()) + list(und.items())))
+        try:
+            got = getattr(d, k)
+            out.call()
+            if k not in und:
+                out.viol('attr-absent-returned', '%s with keys _u, __w: .%s returned %r although the key is absent' % (shown, k, got), op='getattr', cls=cname, underscore=True)
+            elif got is not d[k] or got is not und[k]:
+                out.viol('attr-mismatch', "%s with keys _u, __w: .%s is %r but d[%r] is %r" % (shown, k, got, k, d[k]), op='getattr', cls=cname, underscore=True)
+            elif not hasattr(d, k):
+                out.viol('attr-mismatch', "%s with keys _u, __w: hasattr(d, %r) is False" % (shown, k), op='hasattr', cls=cname, underscore=True)
+        except (AttributeError, KeyError) as e:
+            out.call()
+            if k in und:
+                out.viol('attr-raised', '%s with keys _u, __w: .%s raised %s: %s although d[%r] works' % (shown, k, type(e).__name__, e, k), op='getattr', cls=cname, underscore=True)
+        except Exception as e:
+            out.viol('attr-raised', '%s with keys _u, __w: .%s raised %s: %s' % (shown, k, type(e).__name__, e), op='getattr', cls=cname, underscore=True)
 
     # ---- key selections
     for si, sel in enumerate(_selections(universe)):
